@@ -51,6 +51,11 @@ CLAIMED = {
              "for both Morton implementations, which therefore agree. Hilbert: only that the walk's side length is round_pow2(max extent) and that the position depends on the extents through it alone; "
              "bijectivity/adjacency of the walk are NOT decided (data-dependent loop).",
         note="N in 1..3 (quick) / 1..4 (thorough); coordinate types size_t/int (quick) + unsigned (thorough); x86 pdep semantics as modelled; Hilbert walk correctness not claimed"),
+    "C17": dict(
+        level="other", design="5/C17", technique="exact value-identity (D-route) reading of loop-free LLVM IR for constructors and accessors; make_parameter_pack_for over stacks with one shared configuration type",
+        text="Each configuration field read back through get_configuration()/get_backend() must be exactly the scalar it was constructed from, for every configurable layer (both construction routes) and for "
+             "make_parameter_pack_for at depth 1..10 where all nine layers share one configuration type so a positional swap cannot be masked by types. Accessor/trait types are compile witnesses in C13.",
+        note="array backend's configuration handled with ownership (C12); rebuild-equality follows from lookups being functions of (configuration, storage)"),
     "C20": dict(
         level="exploration", design="5/C20", technique="compile-time witness enumeration (static_assert units decided by the type checker)",
         text="Exhaustive enumeration, within the stated bounds, of index sequences; each case is a static_assert whose truth the C++ type checker "
